@@ -353,10 +353,11 @@ func runInbound(sc inScript, parser util.Parser, keyOf func(util.Message) string
 	waitingExtra := false
 	failed := sc.failAfter >= 0
 	sawErr := false
+	nonNil := 0 // deliveries that are messages (a nil hand-over for a rejected frame is not one)
 loop:
 	for {
 		// all expected deliveries (and, on failure, the error) seen: linger briefly for anything extra
-		if !waitingExtra && ((!failed && len(got) >= want) || (failed && sawErr)) {
+		if !waitingExtra && ((!failed && nonNil >= want) || (failed && sawErr)) {
 			waitingExtra = true
 			extra.Reset(40 * time.Millisecond)
 		}
@@ -371,6 +372,7 @@ loop:
 			d := delivered{m: m}
 			if !isNilMsg(m) {
 				d.key, d.dump = keyOf(m), obs.Deep(m)
+				nonNil++
 			}
 			got = append(got, d)
 		case e := <-ms.Error:
